@@ -1,15 +1,15 @@
 SPECIFICATION Spec
 CONSTANTS
   MaxLeaves = 2
-  MaxOps = 2
+  MaxOps = 1
   MaxStack = 2
-  VarSet <- VarsA
-  NumSet <- NumsA
-  FuncSet <- FuncsA
-  Toks <- ToksA
-  GToks <- GToksA
-  IntExps <- ExpsA
-  Wraps <- AllWraps
+  VarSet <- VarsD
+  NumSet <- NoStrings
+  FuncSet <- FuncsD
+  Toks <- ToksD
+  GToks <- ToksD
+  IntExps <- NoStrings
+  Wraps <- NoStrings
   Muts <- NoStrings
   Cors <- NoStrings
   Styles <- NoStrings
